@@ -8,5 +8,6 @@ CONSTANTS
   KeepPublicFlag = FALSE
   NoBodyZone = FALSE
   Strict = TRUE
+VIEW TView
 POSTCONDITION Accepted
 CHECK_DEADLOCK FALSE
